@@ -19,7 +19,8 @@ MANIFEST = dict(
          'out-of-range integer values reach the range-checking conversion unmodified, that every consuming read of more bits/refs than '
          'remain raises on slices from every construction route, and that depth 1024 is rejected.'
          " The depth limit holds at every level: an ordinary cell over a pruned branch whose stored depth would make any level's depth 1024 is refused."
-         ' Snake-chained byte strings take their continuation reference within the capacity (refused at four references, chain cells within capacity); address stores refuse a workchain outside int8 and an external address wider than its length.',
+         ' Snake-chained byte strings take their continuation reference within the capacity (refused at four references, chain cells within capacity); address stores refuse a workchain outside int8 and an external address wider than its length.'
+         ' After a composite read was refused, reading more than the slice still holds raises (on the slice and on a copy of it).',
     note='trusted: interpreter, model of bitarray (int2ba raises OverflowError out of range - library contract). Not decided: arbitrary long operation sequences beyond one operation at every reachable (bits, refs) fill state (the state is exactly (bits, refs), so one step from every state is inductive).',
     design_ref='DESIGN.md section 4 C07')
 
